@@ -334,7 +334,7 @@ func c02one(c *Ctx, target string, ch, node *lab.Child, gs, ts *srv, pc *corpus.
 	resp, err := rawHTTP(pc.Verb, base, uri, hdr, body)
 	c.R.Eval(1)
 	if err != nil {
-		c.R.Inconclusive(caseID, "http:"+err.Error())
+		transportFailure(c, child, nil, caseID, err, map[string]any{"target": target, "uri": uri})
 		return
 	}
 	evs, serr := syncEvents(child)
